@@ -131,7 +131,7 @@ func (w *c19World) listen() (net.PacketConn, error) {
 		}
 		w.lastListen = now
 	} else {
-		w.lastListen = 0
+		w.lastListen = now // (0 in every scenario but the second connection of address-reuse)
 	}
 	if w.cfg.failChoice && (w.listenCalls > 1 || w.cfg.failFirst) {
 		if e.Choose(2, vsched.KEnv, "listen-fail") == 1 {
@@ -624,6 +624,7 @@ func c19Scenarios() []*explore.Scenario {
 			Opt: vsched.Options{HorizonNS: 200 * c19S, MaxSteps: 20000}, Body: c19Body(c)})
 	}
 	scs = append(scs, c19JitterScenario())
+	scs = append(scs, c19ReuseScenario())
 	// one directed run (default schedule only) of the transport-close sequence at the REAL queue
 	// size; the scaled unit "hop-deadline" explores its schedules
 	scs = append(scs, c19TransportCloseScenario(fmt.Sprintf("transport-close-directed-queue%d", packetQueueSize), explore.Bounds{}, explore.Bounds{}))
@@ -673,6 +674,111 @@ func TestVerifC19HopDeadline(t *testing.T) {
 	explore.Main(t, "C19", []*explore.Scenario{
 		c19TransportCloseScenario(fmt.Sprintf("transport-close-queue%d", packetQueueSize), explore.Bounds{P: 2, E: 0}, explore.Bounds{P: 3, E: 1, MaxExec: 600000}),
 	})
+}
+
+// c19ReuseForm: how the address value of the SECOND connection of c19ReuseScenario relates to the
+// one the first connection was built from.
+type c19ReuseForm struct {
+	name  string
+	copy  bool     // built from a struct copy (b := *a) instead of the same *UDPHopAddr
+	host  string   // the exported IP is changed to this ("" = unchanged)
+	ports []uint16 // the exported Ports are changed to these (nil = unchanged)
+}
+
+var c19ReuseForms = []c19ReuseForm{
+	{name: "same-unchanged"},
+	{name: "same-ip-changed", host: "10.9.8.99"},
+	{name: "same-ports-changed-same-count", ports: []uint16{30000, 30002}},
+	{name: "same-ip-and-ports-changed", host: "10.9.8.99", ports: []uint16{30000, 30002}},
+	{name: "same-ports-changed-other-count", ports: []uint16{30000, 30001, 30002}},
+	{name: "copy-unchanged", copy: true},
+	{name: "copy-ip-changed", copy: true, host: "10.9.8.99"},
+	{name: "copy-ports-changed-same-count", copy: true, ports: []uint16{30000, 30002}},
+	{name: "copy-ip6-and-ports-changed", copy: true, host: "2001:db8::53", ports: []uint16{30001, 30002}},
+}
+
+// c19ReuseScenario: the history dimension "address reuse" - a SECOND connection built from a
+// UDPHopAddr value that an earlier (hopped, used and closed) connection was already built from,
+// as the client does on every reconnect; between the two the exported IP and/or Ports of the value
+// are changed, or the value is copied and the copy changed (every form of c19ReuseForms, a free
+// choice; every port-index draw of both connections is a free choice too). Both connections are
+// judged by the same clauses as everywhere else (c19World: every packet to the server IP on a port
+// of the set - as the address value says when the connection is built - from the newest socket;
+// census between hops; final state after Close).
+// (Added after the independently seeded change C19-9: addrs() memoized the per-port address list in
+// an unexported field of the UDPHopAddr and revalidated it by its length only, so a later
+// connection from the same value or a copy of it sent every packet to the earlier IP / ports.)
+func c19ReuseScenario() *explore.Scenario {
+	fixed := HopIntervalConfig{Min: 5 * time.Second, Max: 5 * time.Second}
+	window := 5500 * time.Millisecond
+	return &explore.Scenario{Name: fmt.Sprintf("address-reuse-second-conn-%dforms", len(c19ReuseForms)),
+		Quick: explore.Bounds{P: 0, E: 0}, Thorough: explore.Bounds{P: 1, E: 0, MaxExec: 600000},
+		Opt: vsched.Options{HorizonNS: 200 * c19S, MaxSteps: 20000},
+		Body: func(e *vsched.Exec) {
+			f := c19ReuseForms[e.Choose(len(c19ReuseForms), vsched.KFree, "reuse-form")]
+			e.Logf("reuse form: %s", f.name)
+			vrand.SetSource(e, func(e *vsched.Exec, tag string, bound int64) int64 {
+				if tag != "math/rand.Intn" {
+					e.Fail("unexpected random draw %s bound %d", tag, bound)
+					return 0
+				}
+				v := e.Choose(int(bound), vsched.KFree, "hop-port")
+				e.Logf("draw port index %d of %d", v, bound)
+				return int64(v)
+			})
+			// one connection's life: write, hop `windows` times with a probe after each, Close
+			run := func(tag string, a *UDPHopAddr, windows int) bool {
+				cfg := &c19Cfg{name: tag, portExpr: fmt.Sprintf("%s %v", tag, a.Ports), iv: fixed, window: window, windows: windows}
+				w := &c19World{e: e, cfg: cfg, set: map[int]bool{}, sent: map[string]int{}, injectedSet: map[string]bool{}, delivered: map[string]int{}, lastListen: -1}
+				w.serverIP = append(net.IP(nil), a.IP...)
+				for _, p := range a.Ports {
+					w.set[int(p)] = true
+				}
+				e.Logf("%s connection: server %v ports %v", tag, w.serverIP, a.Ports)
+				pc, err := NewUDPHopPacketConn(a, fixed, w.listen)
+				if err != nil {
+					e.Fail("%s connection: NewUDPHopPacketConn failed: %v", tag, err)
+					return false
+				}
+				w.conn = pc.(*udpHopPacketConn)
+				w.write(tag+"-w", w.conn.Addr)
+				w.rest(tag + "-start")
+				for k := 1; k <= windows; k++ {
+					e.Sleep(int64(window))
+					w.rest(fmt.Sprintf("%s-window%d", tag, k))
+					w.probe(k)
+				}
+				w.closeCalled = true
+				err = w.conn.Close()
+				w.closeReturned = true
+				if err != nil {
+					e.Fail("%s connection: Close returned %v", tag, err)
+				}
+				w.afterClose()
+				return true
+			}
+			addr, err := ResolveUDPHopAddr("10.9.8.7:20000,20002")
+			if err != nil {
+				e.Fail("ResolveUDPHopAddr: %v", err)
+				return
+			}
+			if !run("first", addr, 1) {
+				return
+			}
+			second := addr
+			if f.copy {
+				c := *addr
+				second = &c
+			}
+			if f.host != "" {
+				second.IP = net.ParseIP(f.host)
+			}
+			if f.ports != nil {
+				second.Ports = append([]uint16(nil), f.ports...)
+				second.PortStr = strings.Trim(strings.ReplaceAll(fmt.Sprint(f.ports), " ", ","), "[]")
+			}
+			run("second", second, 2)
+		}}
 }
 
 // c19JitterScenario: every hop interval the conn computes lies in [Min,Max], for the extreme and
